@@ -44,7 +44,8 @@ Proof. exact ev_scheduled. Qed.
 Print Assumptions C17_ev_scheduled.
 
 (* "the queue-flush notification fires only when the queue is empty": nothing queued, nothing of
-   the running batch left, no callable executing (D11 repaired: full strength) *)
+   the running batch left, no callable executing -- also when the callbacks of earlier observers
+   enqueue work (both repairs of flush()/_turn: full strength) *)
 Theorem C17_ev_flush : forall ops st t,
   run src_cfg q0 ops = (st, t) ->
   Forall (fun e => match e with FlushFired _ n r => n = 0%nat /\ r = false | _ => True end) t.
